@@ -53,7 +53,9 @@ func (pv *ResponseBatchItem) TagEncodeTTLV(e *ttlv.Encoder, tag int) {
 			e.ByteString(TagUniqueBatchItemID, pv.UniqueBatchItemID)
 		}
 		e.Any(pv.ResultStatus)
-		if pv.ResultStatus != ResultStatusSuccess || pv.ResultReason != 0 {
+		// The result reason is required for a failed operation only; for the other
+		// statuses (e.g. a pending operation) it is written when there is one.
+		if pv.ResultStatus == ResultStatusOperationFailed || pv.ResultReason != 0 {
 			e.Any(pv.ResultReason)
 		}
 		if pv.ResultMessage != "" {
